@@ -113,7 +113,7 @@ for nnn in (128, 192, 256):
                 "loops": [top_loop(fn, own_pc, nnn, enc, extra)],
                 "tags": spec_tags(props), "props": props, "default_props": props,
                 "reach_must": ["TJV_REACH after", "permutation stub reached"],
-                "unwind": 33, "timeout": 1500, "cost": 60, "mem_gb": 16,
+                "unwind": 33, "timeout": 2400, "cost": 60, "mem_gb": 16, "solver": "kissat",
                 "unbounded": "adlen, mlen <= 2^40 (symbolic; loops closed by loop contracts), all keys, nonces, data; %s" % ("in place (one buffer)" if inplace else "separate buffers"),
                 "assumes": ["contract stubs of tinyjambu_{setup,absorb,generate_tag}_%d and tinyjambu_aead_check_tag (stubs/mon.c) stand for the real functions; each stub contract is discharged against the real function by the leaf%d.* and util.check_tag.* jobs" % (nnn, nnn)],
             })
